@@ -629,6 +629,95 @@ theorem sv_struct (c : Cfg) (fs : BFields) : ∀ (p : Path) (root : Bool) (tail 
                 exact hrest _
 end
 
+theorem seqFieldKey_whichT (c : Cfg) (decl : Fields) (k : BLeaf) (hk : plainTok k.tok = true) :
+    seqFieldKey c decl true k.tok = whichTok (binSem c) decl k := by
+  cases k <;> simp [seqFieldKey, BLeaf.tok, deser, whichTok, binSem, leafPrim, Event.ofRes]
+
+/-- the sequential struct loop of a token-attribute struct over a run of fields (values by `sv_node`). -/
+theorem sv_struct_tok (c : Cfg) : ∀ (m : Nat) (fs : BFields), fs.len = m →
+    ∀ (p : Path) (root : Bool) (tail rest : List Tok) (decl : Fields) (f : Nat) (slots : List (Option String)),
+    Ends root tail rest → plainF fs = true → fitsTokF c fs decl = true →
+    (tokensFields fs).length + 1 + tySize.fieldsSize decl ≤ f →
+    deStruct p c f decl true root (tokensFields fs ++ tail) slots =
+      (valStructG (binSem c) fs decl true slots).map (fun v => (v, rest)) := by
+  intro m
+  induction m with
+  | zero =>
+    intro fs hm p root tail rest decl f slots hends hpl hfit hb
+    obtain ⟨g, rfl⟩ : ∃ g, f = g + 1 := ⟨f - 1, by omega⟩
+    cases fs with
+    | cons gh k v rs => simp [BFields.len] at hm
+    | nil =>
+      simp only [tokensFields, List.nil_append, valStructG]
+      rw [deStruct_none _ _ _ _ _ _ _ _ _ (nextKey_ends p root tail rest hends g)]
+  | succ m ih =>
+    intro fs hm p root tail rest decl f slots hends hpl hfit hb
+    obtain ⟨g, rfl⟩ : ∃ g, f = g + 1 := ⟨f - 1, by omega⟩
+    cases fs with
+    | nil => simp [BFields.len] at hm
+    | cons gh k v rs =>
+      have hrm : rs.len = m := by simp [BFields.len] at hm; exact hm
+      simp only [plainF, Bool.and_eq_true] at hpl
+      simp only [fitsTokF, Bool.and_eq_true] at hfit
+      have hpos := tokensNode_pos v
+      have hlen : (tokensFields (.cons gh k v rs)).length = 2 * gh + 2 + (tokensNode v).length + (tokensFields rs).length := by
+        simp [tokensFields, ghost_len]; omega
+      have htl : tokensFields (.cons gh k v rs) ++ tail =
+          ghostToks gh ++ k.tok :: (.equal :: (tokensNode v ++ (tokensFields rs ++ tail))) := by
+        simp [tokensFields]
+      have hk := nextKey_field p root k hpl.1.1 (.equal :: (tokensNode v ++ (tokensFields rs ++ tail))) gh (g + 1) (by omega)
+      have hn := normTok_plain p .any k.tok (.equal :: (tokensNode v ++ (tokensFields rs ++ tail))) hpl.1.1
+      rw [htl, deStruct_some p c g decl true root _ _ _ _ _ slots hk hn, seqFieldKey_whichT c decl k hpl.1.1,
+        valStructG_cons_true]
+      have hnv := nextValue_node p v hpl.1.2 (tokensFields rs ++ tail)
+      have hvv := fun ty (hf : fitsN c v ty = true) (hb' : (tokensNode v).length + tySize ty ≤ g) =>
+        lift_ty_seq p c v (tokensFields rs ++ tail)
+          (fun core f' hno hfc hbc => sv_node c v p _ core f' hno hpl.1.2 hfc hbc) ty g hf hb'
+      have hrest := fun sl => ih rs hrm p root tail rest decl g sl hends hpl.2 hfit.2 (by omega)
+      have hfit1 : ∀ i name tk fty, whichTok (binSem c) decl k = .ok (some i) → decl.get? i = some (name, tk, fty) →
+          fitsN c v fty = true := by
+        intro i name tk fty h1 h2
+        have := hfit.1
+        rw [h1] at this
+        simpa [h2] using this
+      generalize valueTok p v (tokensFields rs ++ tail) = vtk at hnv hvv
+      obtain ⟨t, tl⟩ := vtk
+      simp only at hvv
+      cases hw : whichTok (binSem c) decl k with
+      | error e => simp [seqStructStep, structStepSpecT, Except.map]
+      | ok w =>
+        cases w with
+        | none =>
+          simp only [seqStructStep, structStepSpecT, hnv]
+          rw [hvv .ign (by cases v <;> simp [fitsN, stripOpt]) (by simp [tySize]; omega)]
+          have : nodeVia (valCoreG (binSem c) v) .ign = .ok "ign" := by
+            cases v <;> simp [nodeVia, stripOpt, valCoreG, wrapRes, wrapSome]
+          simp only [this, Except.map]
+          exact hrest slots
+        | some i =>
+          simp only [seqStructStep, structStepSpecT]
+          cases hsa : slots[i]? with
+          | none => rfl
+          | some a =>
+            cases hfb : decl.get? i with
+            | none => cases a <;> rfl
+            | some y =>
+              obtain ⟨name, tk, fty⟩ := y
+              cases a with
+              | some sv => rfl
+              | none =>
+                dsimp only
+                have hsz := (get?_size decl i name tk fty hfb).1
+                have hfv := hfit1 i name tk fty hw hfb
+                simp only [hnv]
+                rw [hvv fty hfv (by omega)]
+                cases hx : nodeVia (valCoreG (binSem c) v) fty with
+                | error e => rfl
+                | ok x =>
+                  simp only [Except.map]
+                  exact hrest _
+
+
 /-- (C04_eq_spec, both SEQUENTIAL paths, NESTED documents) for every binary document whose leaves are
 not the reserved lexeme 0x0243 (`plainF`; the byte-level `wf` gives it), every root request that fits it
 (`fitsRoot`), every resolver and strategy: the on-demand and
@@ -640,7 +729,14 @@ theorem C04_eq_spec_seq (p : Path) (c : Cfg) (ty : RootTy) (d : BDoc) (hpl : pla
   have hto : tokensOf d = tokensFields d ++ [] := by simp [tokensOf]
   unfold deSeqRoot valueOfBin valueOfG
   cases ty with
-  | tok fs => simp [fitsRoot] at hfit
+  | tok decl =>
+    simp only [fitsRoot] at hfit
+    dsimp only
+    have := sv_struct_tok c d.len d rfl p true [] [] decl (2 * (tokensOf d).length + rootSize (.tok decl) + 8) (slotsInit decl)
+      hends hpl hfit (by simp [tokensOf, rootSize, tySize]; omega)
+    rw [← hto] at this
+    rw [this]
+    cases valStructG (binSem c) d decl true (slotsInit decl) <;> rfl
   | plain t =>
     cases t with
     | map vt =>
@@ -671,5 +767,16 @@ theorem C04_tape_eq_ondemand (c : Cfg) (ty : RootTy) (d : BDoc) (hpl : plainF d 
   have h2 := C04_eq_spec_seq .ondemand c ty d hpl hfit
   have h3 := C04_eq_spec_seq .stream c ty d hpl hfit
   exact ⟨by rw [h1]; exact h2.symm, by rw [h1]; exact h3.symm, h1⟩
+
+/-- the hypotheses are satisfiable for a token-attribute root struct: `0x2000 = -5  name = "x"  0x2023 = { "a" }` read as
+`struct { #[jomini(token = 0x2000)] a: i64, #[jomini(token = 0x200e)] name: String, #[jomini(token = 0x2023)] flags: Option<Vec<String>> }`
+(the first and third key are matched by token, the second by name; the resolver knows nothing). -/
+example :
+    let d : BDoc := .cons 0 (.id 8192) (.leaf (.i32 (-5))) (.cons 0 (.unquoted [110, 97, 109, 101]) (.leaf (.quoted [120]))
+      (.cons 1 (.id 8227) (.arr (.cons (.leaf (.quoted [97])) .nil)) .nil))
+    let ty : RootTy := .tok (.cons "a" 8192 .i64 (.cons "name" 8206 .str (.cons "flags" 8227 (.opt (.seq .str)) .nil)))
+    plainF d = true ∧ fitsRoot ⟨.error, []⟩ ty d = true ∧
+      (valueOfBin ⟨.error, []⟩ ty d).toOption = some "{a=i-5,name=s78,flags=some([s61])}" := by
+  decide +kernel
 
 end Jomini.BinDe
